@@ -107,6 +107,16 @@ def replay_runs(sc, worlds, steps, repo='/repo'):
                 obs.append({'rc': r['rc'], 'script_spawned': spawned, 'skipped': 't - Build skipped' in r['stderr'],
                             'state_file_exists': os.path.exists(root + '/p/.zinoma/t.checksums'), 'stderr_tail': r['stderr'][-300:], 'changed_during_script': [l for l in sched if l.startswith(('write', 'remove'))]})
                 continue
+            if st['mode'] == 'cancel':
+                # zinoma itself cancels the build: a termination signal arrives while the script runs; the actor kills the script
+                _apply_world(root, w['files'], w['cmds'], rank)
+                sched = ['poll 0 t0.1 all', 'poll 2 t0.4 1', 'poll 0 t0.1 all', 'poll 2 t0.4 1', 'poll 0 t0.1 all', 'poll 2 -', 'poll 0 t0.1 all',
+                         'signal', 'poll 1 -', 'poll 0 t0.0 1', 'drain']
+                r = run_native(binpath, root + '/p', ['t'], sched, timeout=60)
+                spawned = any(l.startswith('proc_spawn') and 'echo t"' in l for l in r['log'])
+                obs.append({'rc': r['rc'], 'script_spawned': spawned, 'script_killed': any(l.startswith('proc_kill') for l in r['log']), 'skipped': 't - Build skipped' in r['stderr'],
+                            'state_file_exists': os.path.exists(root + '/p/.zinoma/t.checksums'), 'stderr_tail': r['stderr'][-300:]})
+                continue
             if st.get('keep_tree'):
                 pass
             else:
